@@ -179,7 +179,7 @@ class Ctx:
         documented environment variables (MNEMONIC, PASSWORD, ACCOUNT_INDEX, HD_PATH).  A sample of the CLI runs made so far is
         repeated (a) with an environment variable set for EVERY long option name the binary's --help shows (UPPER_SNAKE_CASE, and
         with an HDWALLET_ prefix) plus a few generic names, (b) from a working directory that contains files named after the
-        command's arguments; exit class and stdout must be unchanged."""
+        command's arguments, (c) with standard output connected to a pseudo-terminal; exit class and stdout must be unchanged."""
         rec = self.__dict__.get("_cli_recorded", [])
         if not rec or "cli" not in self.bins:
             return
@@ -219,6 +219,15 @@ class Ctx:
                     runs.append(dict(rn, cwd=d))
                     meta.append((rn, x, "working directory containing files named like the arguments"))
             res = implrun.cli_map(self.bins["cli"], runs, timeout=60)
+            # (c) standard output on a terminal instead of a pipe (text output only: `hex decode` writes raw bytes, which a
+            # terminal's line discipline would alter)
+            from concurrent.futures import ThreadPoolExecutor
+            tty = [(rn, x) for rn, x in picks[:40] if rn["args"][:2] != ["hex", "decode"] and not rn.get("stdin_chunks")]
+            with ThreadPoolExecutor(max_workers=8) as ex:
+                tres = list(ex.map(lambda q: implrun.run_cli_tty(self.bins["cli"], q[0]["args"], q[0].get("stdin"), q[0].get("env"), 60), tty))
+            for (rn, x), r in zip(tty, tres):
+                meta.append((rn, x, "standard output is a terminal"))
+                res.append(r)
             for (rn, x, how), r in zip(meta, res):
                 self.count("ambient-independence")
                 if r.cls != x.cls or r.stdout != x.stdout:
